@@ -437,10 +437,10 @@ Qed.
 
 (* framing: ids further down the script *)
 Lemma Post_frame_app a b st ys st' ys' r :
-  Post a b st ys st' ys' -> ys_ok r -> Post a b st (ys ++ r) st' (ys' ++ r).
+  Post a b st ys st' ys' -> Post a b st (ys ++ r) st' (ys' ++ r).
 Proof.
-  intros (A1 & A2 & A3) Hr. split; [|split].
-  - intros (HI & Hy & Ha). apply Forall_app in Hy as [Hy _].
+  intros (A1 & A2 & A3). split; [|split].
+  - intros (HI & Hy & Ha). apply Forall_app in Hy as [Hy Hr].
     destruct (A1 (conj HI (conj Hy Ha))) as (HI' & Hy' & Hb). split; [exact HI'|]. split; [|exact Hb].
     apply Forall_app. split; assumption.
   - intros (Hk & HA & HF). unfold nk_ys in Hk. rewrite forallb_app in Hk. apply andb_true_iff in Hk as [Hk1 Hk2].
@@ -490,11 +490,13 @@ Proof.
 Qed.
 
 Lemma relost_disp evs (Q : conn -> Prop) :
-  (forall e, In e evs -> exists x, Q x /\ (e = EvReleased (c_id x) \/ e = EvLost (c_id x))) -> disp_of evs = [].
+  (forall e, In e evs -> neutral e = true \/ exists x, Q x /\ (e = EvReleased (c_id x) \/ e = EvLost (c_id x))) ->
+  disp_of evs = [].
 Proof.
   induction evs as [|e r IH]; intros H; [reflexivity|]. unfold disp_of in *. cbn [flat_map].
   rewrite IH by (intros e0 H0; apply H; now right).
-  destruct (H e (or_introl eq_refl)) as (x & _ & [-> | ->]); reflexivity.
+  destruct (H e (or_introl eq_refl)) as [Hn|(x & _ & [-> | ->])]; [|reflexivity|reflexivity].
+  now rewrite (neutral_disp e Hn).
 Qed.
 
 (* a worker-side step on generation g: connections only leave (released / lost) or move queue -> picked *)
@@ -502,7 +504,8 @@ Lemma Post_worker a st st' ys g w w' evs :
   nth_error (ws st) g = Some w -> ws st' = replace_nth g w' (ws st) -> bl st' = bl st ->
   trace st' = evs ++ trace st -> err st' = err st -> w_idx w' = w_idx w ->
   (forall x, In x (w_queue w' ++ w_picked w') -> In x (w_queue w ++ w_picked w)) ->
-  (forall e, In e evs -> exists x, In x (w_queue w ++ w_picked w) /\ (e = EvReleased (c_id x) \/ e = EvLost (c_id x))) ->
+  (forall e, In e evs -> neutral e = true \/
+     exists x, In x (w_queue w ++ w_picked w) /\ (e = EvReleased (c_id x) \/ e = EvLost (c_id x))) ->
   (forall c, cnt c (wq_ids w) + cnt c (wp_ids w) = cnt c (wq_ids w') + cnt c (wp_ids w') + cnt c (gone_of evs)) ->
   (nk_ys ys = true -> w_open w' = w_open w /\ NoFault evs) ->
   Post a a st ys st' ys.
@@ -510,7 +513,7 @@ Proof.
   intros Hg Hw Hb Ht He Hi Hsub Hev Hcnt Hnk. split; [|split].
   - intros (HI & Hy & Ha). split; [|auto].
     eapply SInv_upd_ws; try eassumption.
-    apply Forall_forall. intros e Hin. destruct (Hev e Hin) as (x & Hx & Hex).
+    apply Forall_forall. intros e Hin. destruct (Hev e Hin) as [Hn|(x & Hx & Hex)]; [now apply neutral_ev_ok|].
     destruct HI as (_ & _ & I3 & _). destruct (I3 _ _ _ Hg Hx) as [Hh _].
     destruct Hex as [-> | ->]; cbn; exists (c_tok x); exact Hh.
   - intros (Hk & HA & HF). destruct (Hnk Hk) as [Ho Hnf]. split; [exact Hk|]. split.
@@ -624,7 +627,7 @@ Proof.
   - cbn [trace emit]. now rewrite G3.
   - cbn [err emit]. exact G4.
   - intros y Hy. cbn [w_queue w_picked set_w_cnt set_w_picked] in Hy. rewrite !in_app_iff in *. intuition.
-  - intros e [<-|[]]. exists x. split; [apply in_or_app; now right|]. left. now rewrite E.
+  - intros e [<-|[]]. right. exists x. split; [apply in_or_app; now right|]. left. now rewrite E.
   - intros c. unfold wq_ids, wp_ids. cbn [w_queue w_picked set_w_cnt set_w_picked gone_of flat_map ev_gone app].
     rewrite (Hc c), E. lia.
   - intros _. split; [reflexivity|]. constructor; [reflexivity|constructor].
@@ -640,7 +643,7 @@ Proof.
   - cbn [trace emit]. now rewrite G3.
   - cbn [err emit]. exact G4.
   - intros y Hy. cbn [w_queue w_picked set_w_cnt set_w_queue] in Hy. rewrite Eq. rewrite !in_app_iff in *. cbn [In]. tauto.
-  - intros e [<-|[]]. exists x. split; [rewrite Eq; now left|]. now left.
+  - intros e [<-|[]]. right. exists x. split; [rewrite Eq; now left|]. now left.
   - intros c. unfold wq_ids, wp_ids. cbn [w_queue w_picked set_w_cnt set_w_queue gone_of flat_map ev_gone app].
     rewrite Eq. cbn [map]. rewrite (cnt_cons c (c_id x) (map c_id q)). lia.
   - intros _. split; [reflexivity|]. constructor; [reflexivity|constructor].
@@ -651,17 +654,19 @@ Lemma env_kill_post a st g os ys :
 Proof.
   cbn [env_step]. destruct (nth_error (ws st) g) as [w|] eqn:Eg; [|apply Post_refl].
   destruct (w_open w) eqn:Eo; [|apply Post_refl].
-  set (st1 := upd_worker st g (set_w_open (set_w_queue w []) false)).
+  set (st1 := emit (upd_worker st g (set_w_open (set_w_queue w []) false)) (EvKilled g)).
   destruct (lost_fold (w_queue w) st1) as (F1 & F2 & F3 & F4). cbn zeta in *.
-  eapply Post_worker with (g := g) (w := w) (evs := rev (map (fun x => EvLost (c_id x)) (w_queue w)));
+  eapply Post_worker with (g := g) (w := w) (evs := rev (map (fun x => EvLost (c_id x)) (w_queue w)) ++ [EvKilled g]);
     [exact Eg|rewrite F1; reflexivity| | | |reflexivity| | | |].
   - unfold bl. now rewrite F2.
-  - rewrite F4. reflexivity.
+  - rewrite F4. cbn [st1 trace emit upd_worker set_ws]. now rewrite <- app_assoc.
   - rewrite F3. reflexivity.
   - intros y Hy. cbn [w_queue w_picked set_w_open set_w_queue app] in Hy. apply in_or_app. now right.
-  - intros e He. apply in_rev in He. apply in_map_iff in He as (x & <- & Hx). exists x.
+  - intros e He. apply in_app_or in He as [He|[<-|[]]]; [|left; reflexivity].
+    right. apply in_rev in He. apply in_map_iff in He as (x & <- & Hx). exists x.
     split; [apply in_or_app; now left|now right].
-  - intros c. rewrite lost_gone. unfold wq_ids, wp_ids. cbn [w_queue w_picked set_w_open set_w_queue map]. rewrite cnt_nil. lia.
+  - intros c. rewrite gone_of_app, cnt_app, lost_gone. unfold wq_ids, wp_ids.
+    cbn [w_queue w_picked set_w_open set_w_queue map gone_of flat_map ev_gone app]. rewrite cnt_nil. lia.
   - intros Hk. unfold nk_ys in Hk. cbn in Hk. discriminate.
 Qed.
 
